@@ -190,9 +190,9 @@ pub fn spec(id: &str) -> Option<PropSpec> {
         "C13" => PropSpec {
             id: "C13",
             level: "exploration",
-            families: vec![(Family::C13, 36), (Family::C05, 12), (Family::C08, 12), (Family::C13X, 40)],
-            quick_runs: 100_000,
-            thorough_runs: 2_600_000,
+            families: vec![(Family::C13, 54), (Family::C05, 10), (Family::C08, 10), (Family::C13X, 26)],
+            quick_runs: 150_000,
+            thorough_runs: 3_900_000,
             rule: "two kinds of family. (1) C13X, enumeration: EVERY sequence of length 1..3 (thorough; quick: 1..2, length 4 in part) of external events over 27 letters - start the next operation of one of three senders, drop its pending operation, the peer acknowledges the oldest exchange, the transport stops / resumes taking writes (write back-pressure on / off); starting and dropping also 0, 1 or 2 task polls behind the previous letter, i.e. between an event and the wake-up it causes - in all four roles, for send windows of 1 and 2 and six sender kits (QoS 1 only; with ready(); with an exactly-once exchange; with a non-blocking send, a QoS 0 send and a future dropped unpolled; with caller-chosen identifiers that collide; with subscribe / unsubscribe (clients) or a streamed publish (servers)): 48 configurations x 27^len sequences, ordered by length; every letter is performed once the system has gone quiet unless it carries a poll delay; then the closing phase. (2) seeded families: as C05 plus a cooperative closing phase: the peer acknowledges everything it received, stalls are lifted; at final quiescence with fewer exchanges outstanding than the limit every started operation that was not cancelled must have completed (bounded liveness: nothing is left that could wake it); distinct = distinct abstract history signature; non-trivial = at least one operation was parked on the window or on back-pressure (window reached the limit) and a cancellation or ready() took part",
             nontrivial: nt_c13,
             assumptions: base,
